@@ -92,6 +92,8 @@ pub enum PRef {
 pub enum PMsg {
     Record,
     BankSend { to: u8, amt: u32 },
+    /// pay `amt` of the DEPOSIT token (native or cw20, as configured) out of the multisig's pool to an actor
+    SpendDeposit { to: u8, amt: u32 },
     ReExecute(PRef),
     ReVote(PRef),
     ReClose(PRef),
@@ -136,6 +138,8 @@ pub enum Op {
     GroupUpdate { add: Vec<(u8, u64)>, remove: Vec<u8> },
     Fault { on: bool },
     Fund { amt: u32 },
+    /// refill the multisig's pool of the deposit token
+    FundDeposit { amt: u32 },
 }
 
 #[derive(Clone, Debug, Serialize, Deserialize, PartialEq)]
@@ -215,7 +219,7 @@ fn pmsgs(prop: &str) -> BoxedStrategy<Vec<PMsg>> {
             0..4,
         )
         .boxed(),
-        "C15" => proptest::collection::vec(Just(PMsg::Record), 0..2).boxed(),
+        "C15" => proptest::collection::vec(prop_oneof![3 => Just(PMsg::Record), 2 => (actor(), 0u32..40).prop_map(|(to, amt)| PMsg::SpendDeposit { to, amt })], 0..3).boxed(),
         _ => Just(vec![]).boxed(),
     }
 }
@@ -254,11 +258,12 @@ fn op(prop: &str) -> BoxedStrategy<Op> {
     let group = (proptest::collection::vec((actor(), weight()), 0..4), removes).prop_map(|(add, remove)| Op::GroupUpdate { add, remove }).boxed();
     let fault = any::<bool>().prop_map(|on| Op::Fault { on }).boxed();
     let fund = (0u32..200).prop_map(|amt| Op::Fund { amt }).boxed();
+    let fund_dep = (0u32..60).prop_map(|amt| Op::FundDeposit { amt }).boxed();
     match prop {
         "C03" => prop_oneof![6 => propose, 14 => vote, 4 => execute, 4 => close, 3 => advance, 4 => to_expiry].boxed(),
         "C05" => prop_oneof![6 => propose, 10 => vote, 9 => execute, 4 => close, 2 => advance, 3 => to_expiry, 3 => fault, 2 => fund, 2 => group].boxed(),
         "C06" => prop_oneof![6 => propose, 12 => vote, 2 => execute, 1 => close, 4 => advance, 2 => to_expiry, 8 => group].boxed(),
-        _ => prop_oneof![8 => propose, 10 => vote, 6 => execute, 6 => close, 2 => advance, 4 => to_expiry].boxed(),
+        _ => prop_oneof![8 => propose, 10 => vote, 6 => execute, 6 => close, 2 => advance, 4 => to_expiry, 1 => fund_dep].boxed(),
     }
 }
 
@@ -604,6 +609,7 @@ pub fn run_mcase(prop: &str, case: &MCase, ctx: &mut CaseCtx) -> Result<(), Viol
         mint(&mut app, a, SPEND_DENOM, 5);
     }
     mint(&mut app, &faucet, SPEND_DENOM, 1_000_000);
+    mint(&mut app, &faucet, DEP_DENOM, 1_000_000_000_000);
 
     let rec_code = app.store_code(recorder_contract());
     let recorder = try_instantiate(&mut app, rec_code, &faucet, &Empty {}, "recorder").expect("recorder");
@@ -613,7 +619,7 @@ pub fn run_mcase(prop: &str, case: &MCase, ctx: &mut CaseCtx) -> Result<(), Viol
             name: "Deposit Token".into(),
             symbol: "DEP".into(),
             decimals: 6,
-            initial_balances: actors.iter().map(|a| Cw20Coin { address: a.to_string(), amount: Uint128::new(dep_amount * 3 + 2) }).collect(),
+            initial_balances: actors.iter().map(|a| Cw20Coin { address: a.to_string(), amount: Uint128::new(dep_amount * 3 + 2) }).chain(std::iter::once(Cw20Coin { address: faucet.to_string(), amount: Uint128::new(1_000_000_000_000) })).collect(),
             mint: None,
             marketing: None,
         };
@@ -748,6 +754,7 @@ pub fn run_mcase(prop: &str, case: &MCase, ctx: &mut CaseCtx) -> Result<(), Viol
                 in_sweep = true;
                 if prop == "C15" {
                     // recovery sweep: go past every expiry, then try to recover every deposit
+                    sweep.push(Op::FundDeposit { amt: 1_000_000_000 });
                     sweep.push(Op::Advance { blocks: 200, secs: 20_000 });
                     for k in 0..models.len() {
                         sweep.push(Op::Close { by: By::Actor(0), prop: Target::Any(k as u16) });
@@ -888,6 +895,24 @@ pub fn run_mcase(prop: &str, case: &MCase, ctx: &mut CaseCtx) -> Result<(), Viol
                 }
                 Done::Other
             }
+            Op::FundDeposit { amt } => {
+                let mut moved = 0u128;
+                if *amt > 0 {
+                    match (&w.cw20.clone(), w.deposit.map(|d| d.cw20).unwrap_or(false)) {
+                        (Some(tok), true) => {
+                            if try_exec(&mut w.app, &w.faucet.clone(), tok, &Cw20ExecuteMsg::Transfer { recipient: w.multisig.to_string(), amount: Uint128::new(*amt as u128) }, &[]).is_ok() {
+                                moved = *amt as u128;
+                            }
+                        }
+                        _ => {
+                            if let Some(Ok(_)) = catch(|| w.app.send_tokens(w.faucet.clone(), w.multisig.clone(), &coins(*amt as u128, DEP_DENOM))) {
+                                moved = *amt as u128;
+                            }
+                        }
+                    }
+                }
+                Done::FundDep { amt: moved }
+            }
             Op::GroupUpdate { add, remove } => {
                 if let Some(g) = w.group.clone() {
                     let msg = cw4_group::msg::ExecuteMsg::UpdateMembers {
@@ -922,6 +947,10 @@ pub fn run_mcase(prop: &str, case: &MCase, ctx: &mut CaseCtx) -> Result<(), Viol
                     .map(|(i, m)| match m {
                         PMsg::Record => WasmMsg::Execute { contract_addr: w.recorder.to_string(), msg: to_json_binary(&RecExec::Record { tag, idx: i as u32 }).unwrap(), funds: vec![] }.into(),
                         PMsg::BankSend { to, amt } => BankMsg::Send { to_address: w.actors[*to as usize % N_ACTORS].to_string(), amount: coins(*amt as u128, SPEND_DENOM) }.into(),
+                        PMsg::SpendDeposit { to, amt } => match (&w.cw20, w.deposit.map(|d| d.cw20).unwrap_or(false)) {
+                            (Some(tok), true) => WasmMsg::Execute { contract_addr: tok.to_string(), msg: to_json_binary(&Cw20ExecuteMsg::Transfer { recipient: w.actors[*to as usize % N_ACTORS].to_string(), amount: Uint128::new(*amt as u128) }).unwrap(), funds: vec![] }.into(),
+                            _ => BankMsg::Send { to_address: w.actors[*to as usize % N_ACTORS].to_string(), amount: coins(*amt as u128, DEP_DENOM) }.into(),
+                        },
                         PMsg::ReExecute(r) => WasmMsg::Execute { contract_addr: w.multisig.to_string(), msg: to_json_binary(&cw3_fixed_multisig::msg::ExecuteMsg::Execute { proposal_id: resolve_ref(r) }).unwrap(), funds: vec![] }.into(),
                         PMsg::ReVote(r) => WasmMsg::Execute { contract_addr: w.multisig.to_string(), msg: to_json_binary(&cw3_fixed_multisig::msg::ExecuteMsg::Vote { proposal_id: resolve_ref(r), vote: Vote::Yes }).unwrap(), funds: vec![] }.into(),
                         PMsg::ReClose(r) => WasmMsg::Execute { contract_addr: w.multisig.to_string(), msg: to_json_binary(&cw3_fixed_multisig::msg::ExecuteMsg::Close { proposal_id: resolve_ref(r) }).unwrap(), funds: vec![] }.into(),
@@ -1170,6 +1199,8 @@ enum Done {
     Close { target: Option<usize>, ok: bool },
     Time,
     Group { ok: bool },
+    /// the multisig's pool of the deposit token was topped up by `amt`
+    FundDep { amt: u128 },
     Other,
 }
 
@@ -1603,6 +1634,12 @@ fn oracle_c15(w: &World, pre: &Obs, post: &Obs, done: &Done, models: &mut [PMode
         Done::Execute { ok: true, .. } => {
             for i in newly {
                 let m = &mut models[*i];
+                for pm in &m.msgs {
+                    if let PMsg::SpendDeposit { to, amt } = pm {
+                        expect[*to as usize % N_ACTORS] += *amt as i128;
+                        expect[ms] -= *amt as i128;
+                    }
+                }
                 if m.deposit_held {
                     if m.deposit_returned {
                         return Err(v(prop, "deposit-returned-twice", format!("{at}: proposal {} is executed after its deposit was already returned", m.id)));
@@ -1613,6 +1650,9 @@ fn oracle_c15(w: &World, pre: &Obs, post: &Obs, done: &Done, models: &mut [PMode
                     ctx.flag("refund_by_execute");
                 }
             }
+        }
+        Done::FundDep { amt } => {
+            expect[ms] += *amt as i128;
         }
         Done::Close { target: Some(i), ok: true } => {
             let m = &mut models[*i];
@@ -1772,7 +1812,7 @@ pub fn decode_mcase(prop: &str, u: &mut arbitrary::Unstructured) -> MCase {
                             })
                             .collect()
                     }
-                    "C15" => (0..arb_below(u, 2)).map(|_| PMsg::Record).collect(),
+                    "C15" => (0..arb_below(u, 3)).map(|_| if arb_bool(u, 2, 5) { PMsg::SpendDeposit { to: d_actor(u), amt: arb_below(u, 40) as u32 } } else { PMsg::Record }).collect(),
                     _ => vec![],
                 };
                 let latest = match arb_below(u, 8) {
@@ -1802,7 +1842,7 @@ pub fn decode_mcase(prop: &str, u: &mut arbitrary::Unstructured) -> MCase {
                 }
             }
             14 => Op::Fault { on: arb_bool(u, 1, 2) },
-            _ => Op::Fund { amt: arb_below(u, 200) as u32 },
+            _ => if prop == "C15" { Op::FundDeposit { amt: arb_below(u, 60) as u32 } } else { Op::Fund { amt: arb_below(u, 200) as u32 } },
         };
         ops.push(op);
     }
